@@ -229,7 +229,9 @@ func (t *Array) Process(ctx *ProcessContext, di *DataIndexer, accessor Accessor)
 	// Skip redundant bits post decoding.
 	if t.extensible && !ctx.isEncode {
 		// Skip redundant bits.
-		ito := i + int(ahead)*t.capacity
+		// The opponent's array occupies 16 bits of ahead flag plus `ahead`
+		// elements, each of the size just consumed per element.
+		ito := i + 16 + int(ahead)*((ctx.i-i-16)/t.capacity)
 		if ito >= ctx.i {
 			ctx.i = ito
 		}
